@@ -62,7 +62,7 @@ func buildPool(c *Ctx, input []fhir.Resource) []poolItem {
 		"@2020-01-01T10:00:00Z", "@2020-01-01T15:30:00+05:30", "@2019-12-31T23:00:00-11:00", "@2020-01-01T10:00Z", "@2020-01-01T10:00+05:30",
 		"@2020-01-01T10Z", "@2020-01-01T10:00:00.500Z", "@2020-01-01T10:00:01Z", "@2020-01-01T09:59:59Z", "@2021T", "@2020-02T", "@2020-01-02T",
 		"@2020-01-01T10:00:00.000+00:00", "@2020-01-01T04:30:00-05:30", "@2020-01-01T11",
-		"@T10", "@T10:00", "@T10:00:00", "@T10:00:00.000", "@T10:30", "@T09", "@T10:00:00.500", "@T11:00",
+		"@T10", "@T10:00", "@T10:00:00", "@T10:00:00.000", "@T10:30", "@T09", "@T10:00:00.500", "@T11:00", "@T10:00:00.0001", "@T10:00:00.000100", "@T10:00:00.0005", "@2020-01-01T10:00:00.0001Z", "@2020-01-01T10:00:00.000100Z",
 		"1 'mg'", "1.0 'mg'", "2 'mg'", "1 'kg'", "1 year", "1 'a'", "12 months", "1 day", "1 days", "0 'mg'",
 	}
 	for _, src := range lits {
@@ -97,6 +97,10 @@ func buildPool(c *Ctx, input []fhir.Resource) []poolItem {
 		{"DateTime 2020-01-01T10:00:00.000Z ms", mkDT(2020, 1, 1, 10, 0, 0, 0, "Z", dtpb.DateTime_MILLISECOND)},
 		{"DateTime 2020-01-01 day +05:30", mkDT(2020, 1, 1, 0, 0, 0, 0, "+05:30", dtpb.DateTime_DAY)},
 		{"DateTime 2020 year", mkDT(2020, 1, 1, 0, 0, 0, 0, "UTC", dtpb.DateTime_YEAR)},
+		{"DateTime 2020-01-01 day -11:00", mkDT(2020, 1, 1, 0, 0, 0, 0, "-11:00", dtpb.DateTime_DAY)}, {"DateTime 2020-01-01 day +14:00", mkDT(2020, 1, 1, 0, 0, 0, 0, "+14:00", dtpb.DateTime_DAY)},
+		{"DateTime 2020-01 month +05:30", mkDT(2020, 1, 1, 0, 0, 0, 0, "+05:30", dtpb.DateTime_MONTH)}, {"DateTime 2020 year +14:00", mkDT(2020, 1, 1, 0, 0, 0, 0, "+14:00", dtpb.DateTime_YEAR)},
+		{"DateTime 2020-01-01T10:00:00.000100Z us", mkDT(2020, 1, 1, 10, 0, 0, 100, "Z", dtpb.DateTime_MICROSECOND)},
+		{"Time 10:00:00.000100", &dtpb.Time{ValueUs: 36000e6 + 100, Precision: dtpb.Time_MICROSECOND}},
 		{"Time 10:00:00", &dtpb.Time{ValueUs: 36000e6, Precision: dtpb.Time_SECOND}}, {"Time 10:00:00.000", &dtpb.Time{ValueUs: 36000e6, Precision: dtpb.Time_MILLISECOND}},
 		{"Quantity 1 mg", &dtpb.Quantity{Value: &dtpb.Decimal{Value: "1"}, Code: &dtpb.Code{Value: "mg"}}},
 		{"Quantity 1.0 kg", &dtpb.Quantity{Value: &dtpb.Decimal{Value: "1.0"}, Code: &dtpb.Code{Value: "kg"}}},
@@ -116,6 +120,50 @@ func runC05(c *Ctx) {
 	pool := buildPool(c, input)
 	for _, p := range pool {
 		c.Count("pool:" + p.kind)
+	}
+	// a FHIR primitive element denotes the value of its JSON text: compared with the literal of that
+	// text it is equal (and neither less nor greater)
+	elemLiteral := map[string]string{
+		"fhir.Integer(1)": "1", "fhir.Integer(2)": "2", "PositiveInt(1)": "1", "UnsignedInt(0)": "0", "fhir.Decimal 1.0": "1.0", "fhir.Decimal 1.50": "1.50", "fhir.String a": "'a'", "fhir.Code a": "'a'", "fhir.Uri b": "'b'", "fhir.Id a": "'a'",
+		"fhir.Boolean true": "true", "fhir.Boolean false": "false", "Date 2020-01-01 UTC": "@2020-01-01", "Date 2020-01-01 +05:30": "@2020-01-01", "Date 2020-01 -11:00": "@2020-01", "Date 2020 Z": "@2020",
+		"DateTime 2020-01-01T10:00:00Z s": "@2020-01-01T10:00:00Z", "DateTime 2020-01-01T15:30:00+05:30 s": "@2020-01-01T15:30:00+05:30", "DateTime 2020-01-01T10:00:00.000Z ms": "@2020-01-01T10:00:00.000Z",
+		"DateTime 2020-01-01 day +05:30": "@2020-01-01T", "DateTime 2020 year": "@2020T", "DateTime 2020-01-01 day -11:00": "@2020-01-01T", "DateTime 2020-01-01 day +14:00": "@2020-01-01T", "DateTime 2020-01 month +05:30": "@2020-01T",
+		"DateTime 2020 year +14:00": "@2020T", "DateTime 2020-01-01T10:00:00.000100Z us": "@2020-01-01T10:00:00.000100Z", "Time 10:00:00": "@T10:00:00", "Time 10:00:00.000": "@T10:00:00.000", "Time 10:00:00.000100": "@T10:00:00.000100",
+		"Quantity 1 mg": "1 'mg'", "Quantity 1.0 kg": "1.0 'kg'",
+	}
+	for _, p := range pool {
+		lit, ok := elemLiteral[p.src]
+		if !ok {
+			continue
+		}
+		for _, op := range []string{"=", "!=", "<", ">", "<=", ">="} {
+			want := map[string]string{"=": "ok:t", "!=": "ok:f", "<": "ok:f", ">": "ok:f", "<=": "ok:t", ">=": "ok:t"}[op]
+			if p.kind == "B" || strings.HasPrefix(p.src, "fhir.Uri") || strings.HasPrefix(p.src, "fhir.Id") || strings.HasPrefix(p.src, "fhir.Code") {
+				if op != "=" && op != "!=" {
+					continue
+				}
+			}
+			for _, src := range []string{"%x " + op + " " + lit, lit + " " + op + " %x"} {
+				o := safeEval(func() (system.Collection, error) {
+					e, err := fhirpath.Compile(src)
+					if err != nil {
+						return nil, err
+					}
+					return e.Evaluate(input, evalopts.EnvVariable("x", p.val))
+				})
+				got := "err"
+				if o.Err == nil && !o.Panicked {
+					got = "ok:-"
+					if len(o.Coll) == 1 {
+						if b, ok := o.Coll[0].(system.Boolean); ok {
+							got = map[bool]string{true: "ok:t", false: "ok:f"}[bool(b)]
+						}
+					}
+				}
+				c.Observe("element-literal "+p.src+" "+src, true)
+				c.Law(got == want, "C05/element-literal", "a FHIR primitive element compares as the value of its JSON text", src+" with %x = "+p.src, got+" want "+want)
+			}
+		}
 	}
 	ops := map[string]*fhirpath.Expression{}
 	for _, op := range []string{"=", "!=", "<", "<=", ">", ">="} {
